@@ -14,3 +14,7 @@ open SamVerif.Hint
 #print axioms wrap_keeps_hints_code
 #print axioms annotate_keeps_later_hints
 #print axioms enclosing_hint_rule_counterexample
+#print axioms synth_flag_exact
+#print axioms synth_flag_order_independent
+#print axioms synth_flag_exact_code
+#print axioms reset_no_restore_counterexample
